@@ -45,6 +45,10 @@ type c20Extractor struct {
 	pins []string
 	// the guards the region being walked speaks about
 	guards map[string]bool
+	// functions declared in cmd/run.go and cmd/reload_manager.go (plain names), for callee resolution
+	decls    map[string]*ast.FuncDecl
+	callFuns map[*ast.SelectorExpr]bool
+	inCallee map[string]bool
 	// statistics
 	nIf, nStmts int
 }
@@ -79,6 +83,13 @@ func (x *c20Extractor) src(n ast.Node) string {
 		i++
 	}
 	return sb.String()
+}
+
+func (x *c20Extractor) aliasOf(name string) string {
+	if a, ok := x.alias[name]; ok {
+		return a
+	}
+	return name
 }
 
 func (x *c20Extractor) rawSrc(n ast.Node) string {
@@ -195,10 +206,9 @@ func (x *c20Extractor) callToken(c *ast.CallExpr) string {
 		tok := "prog=" + c20ProgCode(arg(0))
 		if arg(0) == "consts.ReloadDone" {
 			// Done "" (cleared) and Done "OK" are different observable answers
-			if arg(1) == `"OK"` {
+			// the property does not fix the text of the answer: any non-empty content is "Done with an answer"
+			if arg(1) != `""` {
 				tok += "ok"
-			} else if arg(1) != `""` {
-				tok += "?" + arg(1)
 			}
 		}
 		return tok
@@ -317,6 +327,41 @@ func (x *c20Extractor) fallbackToken(fun string) string {
 	if strings.ContainsAny(fun, " {") {
 		return "" // not a plain (selector) name, e.g. an immediately invoked function literal
 	}
+	if fd, ok := x.decls[fun]; ok && fd.Body != nil && !x.inCallee[fun] {
+		// a helper declared in package cmd: what it does to the reload state counts at the call site
+		if x.inCallee == nil {
+			x.inCallee = map[string]bool{}
+		}
+		x.inCallee[fun] = true
+		// parameters of type *reloadManager are the manager inside the callee
+		saved := map[string]string{}
+		if fd.Type.Params != nil {
+			for _, fld := range fd.Type.Params.List {
+				if x.rawSrc(fld.Type) == "*reloadManager" {
+					for _, n := range fld.Names {
+						if old, ok := x.alias[n.Name]; ok {
+							saved[n.Name] = old
+						} else {
+							saved[n.Name] = ""
+						}
+						x.alias[n.Name] = "reloadManager"
+					}
+				}
+			}
+		}
+		t := x.litToken(&ast.FuncLit{Body: fd.Body})
+		for n, old := range saved {
+			if old == "" {
+				delete(x.alias, n)
+			} else {
+				x.alias[n] = old
+			}
+		}
+		delete(x.inCallee, fun)
+		if t != "" {
+			return "call" + strings.TrimPrefix(t, "lit")
+		}
+	}
 	low := strings.ToLower(fun)
 	if strings.HasPrefix(fun, "reloadManager.") || strings.Contains(low, "reloadpending") ||
 		strings.Contains(low, "reloadproxyfailuresuppression") || strings.Contains(low, "rejectedreload") ||
@@ -344,6 +389,17 @@ func (x *c20Extractor) exprTokens(n ast.Node) []string {
 			}
 			return false
 		case *ast.CallExpr:
+			if x.callFuns == nil {
+				x.callFuns = map[*ast.SelectorExpr]bool{}
+			}
+			for fe := v.Fun; ; {
+				se, ok := fe.(*ast.SelectorExpr)
+				if !ok {
+					break
+				}
+				x.callFuns[se] = true
+				fe = se.X
+			}
 			if f := x.src(v.Fun); f == "context.WithTimeout" && !x.commTokens && len(v.Args) == 2 {
 				x.pins = append(x.pins, "ctx:"+x.src(v.Args[1]))
 			}
@@ -356,7 +412,28 @@ func (x *c20Extractor) exprTokens(n ast.Node) []string {
 				out = append(out, t)
 			}
 			return false
+		case *ast.SelectorExpr:
+			// the manager's methods used as values (`f := reloadManager.finishReloadFailure`)
+			if id, ok := v.X.(*ast.Ident); ok && !x.commTokens && x.aliasOf(id.Name) == "reloadManager" && !x.callFuns[v] {
+				switch v.Sel.Name {
+				case "reloadActive", "reloading", "reloadPending", "reloadReqs", "runStateChanges", "sigs":
+				default:
+					out = append(out, "?value:reloadManager."+v.Sel.Name)
+				}
+			}
 		case *ast.AssignStmt:
+			for i, l := range v.Lhs {
+				if i < len(v.Rhs) && !x.commTokens {
+					if id, ok := v.Rhs[i].(*ast.Ident); ok {
+						if x.aliasOf(id.Name) == "reloadManager" {
+							out = append(out, "?alias:reloadManager") // a second name for the manager hides its calls
+						}
+						if lid, ok2 := l.(*ast.Ident); ok2 && id.Name == "nil" && x.aliasOf(lid.Name) == "listener" {
+							out = append(out, "?listener=nil") // makes the next wake-up take the exit branch
+						}
+					}
+				}
+			}
 			// direct writes to manager fields are not expected anywhere
 			for _, l := range v.Lhs {
 				if s := x.src(l); strings.HasPrefix(s, "reloadManager.") {
@@ -617,7 +694,19 @@ func c20ExtractRegions(repo string) (*c20Regions, error) {
 	if err != nil {
 		return nil, err
 	}
-	x := &c20Extractor{fset: fset}
+	x := &c20Extractor{fset: fset, decls: map[string]*ast.FuncDecl{}}
+	if fm0, err := parser.ParseFile(fset, filepath.Join(repo, "cmd", "reload_manager.go"), nil, 0); err == nil {
+		for _, d := range fm0.Decls {
+			if fd, ok := d.(*ast.FuncDecl); ok && fd.Recv == nil {
+				x.decls[fd.Name.Name] = fd
+			}
+		}
+	}
+	for _, d := range f.Decls {
+		if fd, ok := d.(*ast.FuncDecl); ok && fd.Recv == nil {
+			x.decls[fd.Name.Name] = fd
+		}
+	}
 	var run *ast.FuncDecl
 	for _, d := range f.Decls {
 		if fd, ok := d.(*ast.FuncDecl); ok && fd.Name.Name == "Run" && fd.Recv != nil {
@@ -716,11 +805,23 @@ func c20ExtractRegions(repo string) (*c20Regions, error) {
 			}
 		case *ast.GoStmt:
 			// the first goroutine of Run: listen + serve + the start-up progress write
-			if fl, ok := v.Call.Fun.(*ast.FuncLit); ok && !startupSeen && fl.Pos() < workerBody[0].Pos() {
-				if t := x.litToken(fl); t != "" {
-					startupSeen = true
-					fact("ctor startup " + t)
+			if fl, ok := v.Call.Fun.(*ast.FuncLit); ok {
+				inRegion := func(list []ast.Stmt) bool {
+					return len(list) > 0 && fl.Pos() <= list[0].Pos() && list[len(list)-1].End() <= fl.End() ||
+						len(list) > 0 && list[0].Pos() <= fl.Pos() && fl.End() <= list[len(list)-1].End()
 				}
+				if inRegion(workerBody) || inRegion(handlerBody) || inRegion(signalBody) {
+					return true // the worker goroutine itself / literals inside the regions (path tokens)
+				}
+				if t := x.litToken(fl); t != "" {
+					if !startupSeen && fl.Pos() < workerBody[0].Pos() {
+						startupSeen = true
+						fact("ctor startup " + t)
+					} else {
+						fact("ctor goroutine " + t) // any other goroutine of Run that touches the reload state
+					}
+				}
+				return false
 			}
 		}
 		return true
